@@ -119,8 +119,7 @@ class SiRecorder:
         self.values = []
 
     def _p(self):
-        c = self.c
-        return {"skip": int(c._skip), "xRem": int(c._x_rem), "yRem": int(c._y_rem)}
+        return common.si_priv(self.c)
 
     def call(self, kind, x=None):
         c = self.c
